@@ -4,7 +4,7 @@ Executing on a real SQLite engine and reading its catalogue back is outside solv
 from props import c14
 
 def run(ctx):
-    c14.run(ctx, dialects=['sqlite'], families=('column', 'table', 'alter', 'index'))
+    c14.run(ctx, dialects=['sqlite'], families=('column', 'table', 'alter', 'index'), deep=True)   # one dialect only: the thorough bounds fit the quick budget (about 15 s)
     ctx.bounds['affinity'] = 'every SQLite-supported ColumnType variant with symbolic lengths / precisions: affinity(type name) = intended affinity; AUTOINCREMENT requires INTEGER'
     ctx.assumptions.append('NOT decided here: that a running SQLite engine accepts the statements and that its catalogue reports the declared objects')
 
